@@ -15,8 +15,8 @@ pub type RawMode = u32;
 pub mod syscalls {
     use super::*;
 //@include prelude/syserr_opaque.rs
-//@use syscalls.unlinkat
-//@use syscalls.openat
+//@use syscalls.unlinkat gone
+//@use syscalls.openat gone
 //@use-missing syscalls.openat syscalls.openat_follow syscalls.readlinkat syscalls.mkdirat syscalls.mknodat syscalls.unlinkat syscalls.linkat syscalls.symlinkat syscalls.renameat syscalls.renameat2 syscalls.openat2
 }
 use syscalls::Error as SyscallError;
